@@ -68,6 +68,7 @@ for part in os.environ.get("VERIF_SETS", "").split(";"):
         i, vals = part.split("=")
         SETS[int(i)] = [int(x) for x in vals.split(",")]
 RANGES = [len(CONSTRAINTS), 3, 3, 2, 2, 8, 3, 2]
+TIE = os.environ.get("VERIF_TIE", "") == "1"    # free and SMT instantiation limits take the same value
 MODE = os.environ.get("VERIF_MODE", "both")     # c01: only solution validity; c02: only the exception contract
 IGNORED_LOG = os.environ.get("VERIF_IGNORED_LOG", "")
 
@@ -203,6 +204,8 @@ def _ok(v: List[int]) -> bool:
             return False
         if i in SETS and x not in SETS[i]:
             return False
+    if TIE and v[1] != v[2]:
+        return False
     return v[5] >= 1
 
 
